@@ -153,6 +153,22 @@ def mutants(name, spec, u65):
         kmut("k4x4s4", [4, 4, 4, 4, 1, 1], [0, 0, 0, 0])
         kmut("k2x4s3", [2, 4, 3, 3, 1, 1], [0, 0, 0, 0])
         kmut("k3x2s1x2", [3, 2, 1, 2, 1, 1], [0, 1, 0, 1])
+        kmut("k3x3s3x1", [3, 3, 3, 1, 1, 1], [1, 1, 1, 1])
+        kmut("k2x2s2x1", [2, 2, 2, 1, 1, 1], [0, 0, 0, 0])
+        kmut("k3x3s3x1.big", [3, 3, 3, 1, 1, 1], [1, 1, 1, 1], extra=dict(block="last"))
+        # wide feature maps, so that wide OFM blocks are offered and the IFM block width (which follows the x stride) decides the bank count
+        for tag, kern, pd in (("k3x3s3x1", [3, 3, 3, 1, 1, 1], [1, 1, 1, 1]), ("k3x3s1x3", [3, 3, 1, 3, 1, 1], [1, 1, 1, 1]), ("k2x2s2x1", [2, 2, 2, 1, 1, 1], [0, 0, 0, 0]), ("k3x3s1x1", [3, 3, 1, 1, 1, 1], [1, 1, 1, 1])):
+            for blk in ("first", "last", "largest"):
+                sw = copy.deepcopy(spec)
+                sw["ifm"]["shape"] = [16, 48, sw["ifm"]["shape"][2]]
+                sw["ifm"]["addr"] = 0x10000
+                sw["kernel"], sw["pad"] = kern, pd
+                oh_ = (16 + pd[0] + pd[2] - kern[1]) // kern[3] + 1
+                ow_ = (48 + pd[1] + pd[3] - kern[0]) // kern[2] + 1
+                sw["ofm"]["shape"] = [oh_, ow_, sw["ofm"]["shape"][2]]
+                sw["ofm"]["addr"] = 0x20000
+                sw["block"] = blk
+                out.append(("%s.wide_%s.%s" % (name, tag, blk), sw))
         kmut("pad2010", [3, 3, 1, 1, 1, 1], [2, 0, 1, 0])
         kmut("pad0201", [3, 3, 1, 1, 1, 1], [0, 2, 0, 1])
         if k != "pool":
